@@ -6,11 +6,13 @@ from vlib.props import grammar_texts
 
 ID = 'C01'
 LEVEL = 'exploration'
-DECIDING = ['lex_partition', 'error_iff_no_rule']
+DECIDING = ['lex_partition', 'error_iff_no_rule', 'interleaved_generators']
 RULE = ('inputs: char soup over all code points (NUL, C0 controls, lone '
         'surrogates, astral), token soup, bracket/keyword soup, mutated '
         'tests/files/*.sql, grammar scripts, and EVERY sequence of <=2 '
-        '(quick) / <=3 (thorough) atoms of a 40-atom opener/terminator set. '
+        '(quick) / <=3 (thorough) atoms of a 40-atom opener/terminator set; '
+        'every 10th input is also tokenized while a second tokenization is '
+        'consumed alternately (two live generators of the shared lexer). '
         'distinct_nontrivial = distinct token-type sequences of length >= 2 '
         'observed on the real lexer output')
 EXHAUSTIVE_PART = ('atom sequences up to the stated length are enumerated '
@@ -62,6 +64,42 @@ def check_text(rec, kind, text, full=True):
     return toks
 
 
+def check_interleaved(rec, a, b):
+    """Two tokenizations alive at the same time, consumed alternately (lazy
+    generators of the process-wide lexer): each must still partition its own
+    text."""
+    rec.case()
+    rec.monitor('interleaved_generators')
+    ga, gb = lexer.tokenize(a), lexer.tokenize(b)
+    ta, tb = [], []
+    done_a = done_b = False
+    try:
+        while not (done_a and done_b):
+            if not done_a:
+                try:
+                    ta.append(next(ga))
+                except StopIteration:
+                    done_a = True
+            if not done_b:
+                try:
+                    tb.append(next(gb))
+                    tb.append(next(gb))
+                except StopIteration:
+                    done_b = True
+    except Exception as exc:
+        rec.violation('interleaved-raised', {'text': a, 'other': b},
+                      '%s: %s' % (type(exc).__name__, exc), key='ilexc')
+        return
+    for text, toks, other in ((a, ta, b), (b, tb, a)):
+        err = oracles.lex_partition(text, toks)
+        if err:
+            rec.violation('interleaved-not-a-partition',
+                          {'text': text, 'other': other},
+                          'with a second tokenization consumed alternately: '
+                          + err, key='il')
+            return
+
+
 def shard(ctx):
     rec, rng = ctx.rec, ctx.rng
     # 1. exhaustive atom enumeration, sharded by index
@@ -83,7 +121,12 @@ def shard(ctx):
         else:
             kind, text = 'grammar', gen.text()
         check_text(rec, kind, text, full=(i % 3 == 0))
+        if i % 10 == 0:
+            check_interleaved(rec, text, hostile.hostile_text(rng)[1])
 
 
 def replay(ctx, kind, case):
-    check_text(ctx.rec, case.get('source', 'replay'), case['text'])
+    if 'other' in case:
+        check_interleaved(ctx.rec, case['text'], case['other'])
+    else:
+        check_text(ctx.rec, case.get('source', 'replay'), case['text'])
